@@ -199,7 +199,10 @@ class Tokenizer:
         if is_indented:
             import textwrap
 
-            string = textwrap.dedent(string)
+            # dedent sees a blank CRLF line as text in column 0 (its "\r") and then removes nothing: hide the "\r"s from it
+            src_lines = string.split("\n")
+            out_lines = textwrap.dedent("\n".join(ln.removesuffix("\r") for ln in src_lines)).split("\n")
+            string = "\n".join(out + ("\r" if src.endswith("\r") else "") for src, out in zip(src_lines, out_lines))
         return TokenInfo(Token.MACRO_PARAM, string, start, end, string)
 
     def syntax_error(self, message: str, tok: TokenInfo) -> SyntaxError:
